@@ -120,8 +120,15 @@ extern ssize_t mpt_slice_write(MPT_STRUCT(slice) *sl, size_t nblk, const void *f
 			return _fast_append(sl, nblk, from, size);
 		}
 	}
+	flags = buf ? buf->_vptr->get_flags(buf) : 0;
+	/* slice data in shared buffer must not be copied */
+	if (sl->_len
+	 && (flags & MPT_ENUM(BufferNoCopy))
+	 && (flags & MPT_ENUM(BufferShared))) {
+		return MPT_ERROR(BadOperation);
+	}
 	/* new instance keeps the user flags, apart from immutability */
-	flags = buf ? (buf->_vptr->get_flags(buf) & MPT_ENUM(BufferFlagsUser) & ~MPT_ENUM(BufferImmutable)) : 0;
+	flags &= MPT_ENUM(BufferFlagsUser) & ~MPT_ENUM(BufferImmutable);
 	/* get space for needed data size */
 	while (!(next = _mpt_buffer_alloc(sl->_len + nblk * size, flags))) {
 		if (!(nblk /= 2)) {
